@@ -33,7 +33,7 @@ Inductive err :=
 | EGoawayLen
 | EUnexpectedEOF             (* io.ErrUnexpectedEOF *)
 | ETrailerTooLarge           (* the trailer callback's size check *)
-| ETruncated                 (* errFrameTruncated: the stream ended inside a frame (wraps io.EOF) *)
+| ETruncated                 (* an error that Is io.EOF without being io.EOF: not produced by the current code *)
 | EFuel.                     (* model artefact; excluded by the theorems, never produced on real inputs *)
 
 Definition is_eof (e : err) : bool := match e with EEOF => true | _ => false end.
@@ -194,33 +194,27 @@ Definition close_conn (cl : option Z) (code : Z) : option Z :=
   match cl with Some c => Some c | None => Some code end.
 
 (** frameParser.ParseNext.  [cl] = the application error the connection was closed with.
-    The wrapper of the repaired code: an io.EOF that arrives after at least one byte of the
-    current frame was consumed (NumRead > 0, i.e. the data was not empty when the frame
-    started) becomes errFrameTruncated; at a frame boundary it stays io.EOF. *)
-Definition truncated (nonempty : bool) (e : err) : err :=
-  if nonempty && is_eof e then ETruncated else e.
-
-Definition map_err {A} (f : err -> err) (r : (err + A) * src) : (err + A) * src :=
-  match r with (inl e, s) => (inl (f e), s) | (inr a, s) => (inr a, s) end.
-
+    NB the end of the stream INSIDE a frame (partial varint, partial skipped / SETTINGS / GOAWAY
+    payload) surfaces as the stream's plain io.EOF, exactly like the end at a frame boundary
+    (the repair that distinguishes the two is pinned by a baseline test and not in /repo:
+    fixes/not-applied/C18-truncated-frame.patch). *)
 Fixpoint parse_next (fuel : nat) (s : src) (cl : option Z) : (err + frame) * src * option Z :=
   match fuel with
   | O => (inl EFuel, s, cl)
   | S f =>
-    let tr := truncated (match s_data s with [] => false | _ :: _ => true end) in
     match read_varint s with
-    | (inl e, s1) => (inl (tr e), s1, cl)
+    | (inl e, s1) => (inl e, s1, cl)
     | (inr (t, n1), s1) =>
       match read_varint s1 with
-      | (inl e, s2) => (inl (tr e), s2, cl)
+      | (inl e, s2) => (inl e, s2, cl)
       | (inr (l, n2), s2) =>
         if t =? 0 then (inr (FData l), s2, cl)
         else if t =? 1 then (inr (FHeaders l (n1 + n2)), s2, cl)
-        else if t =? 4 then (map_err tr (parse_settings s2 l), cl)
-        else if t =? 7 then (map_err tr (parse_goaway s2 l), cl)
+        else if t =? 4 then (parse_settings s2 l, cl)
+        else if t =? 7 then (parse_goaway s2 l, cl)
         else if reserved_type t then (inl (EReserved t), s2, close_conn cl h3ErrCodeFrameUnexpected)
         else match skip (fuel_of s2) s2 l with
-             | (Some e, s3) => (inl (tr e), s3, cl)
+             | (Some e, s3) => (inl e, s3, cl)
              | (None, s3) => parse_next f s3 cl
              end
       end
@@ -251,17 +245,12 @@ Definition set_written (x : stream) (w : list (list Z)) : stream :=
   mkStream (x_src x) (x_rem x) (x_trailer x) (x_closed x) (x_trailers x) (x_maxHdr x) w (x_wfail x).
 
 (** The tail of Stream.Read: read at most min(len b, bytesRemainingInFrame) payload bytes. *)
-(** Stream.handleTruncatedFrame: the stream ended cleanly inside a frame: connection error
-    H3_FRAME_ERROR (RFC 9114, 7.1), the reader gets io.ErrUnexpectedEOF, never a clean EOF. *)
-Definition truncated_frame (x : stream) : stream :=
-  set_closed x (close_conn (x_closed x) h3ErrCodeFrameError).
-
+(** The tail of Stream.Read: read at most min(len b, bytesRemainingInFrame) payload bytes.
+    An io.EOF that arrives while bytesRemainingInFrame > 0 is passed on unchanged. *)
 Definition read_payload (x : stream) (blen : Z) : list Z * option err * stream :=
   let m := if x_rem x <? blen then x_rem x else blen in
   let '(out, e, s') := src_read (x_src x) m in
-  let x' := set_rem (set_src x s') (x_rem x - zlen out) in
-  if oerr_is_eof e && (0 <? x_rem x') then (out, Some EUnexpectedEOF, truncated_frame x')
-  else (out, e, x').
+  (out, e, set_rem (set_src x s') (x_rem x - zlen out)).
 
 (** The trailer callback (decodeTrailers up to QPACK): size check, io.ReadFull of the block. *)
 Definition trailer_cb (x : stream) (l : Z) : option err * stream :=
@@ -274,12 +263,7 @@ Definition trailer_cb (x : stream) (l : Z) : option err * stream :=
 Definition stream_read (x : stream) (blen : Z) : list Z * option err * stream :=
   if x_rem x =? 0 then
     match parse_next (fuel_of (x_src x)) (x_src x) (x_closed x) with
-    | (inl e, s', cl) =>
-      let x1 := set_closed (set_src x s') cl in
-      match e with
-      | ETruncated => ([], Some EUnexpectedEOF, truncated_frame x1)
-      | _ => ([], Some e, x1)
-      end
+    | (inl e, s', cl) => ([], Some e, set_closed (set_src x s') cl)
     | (inr f, s', cl) =>
       let x1 := set_closed (set_src x s') cl in
       match f with
@@ -288,11 +272,7 @@ Definition stream_read (x : stream) (blen : Z) : list Z * option err * stream :=
         else read_payload (set_rem x1 l) blen
       | FHeaders l _ =>
         if x_trailer x1 then ([], Some EHeadersAfterTrailers, x1)
-        else let '(e, x2) := trailer_cb (set_trailer x1 (x_trailers x1)) l in
-             match e with
-             | Some EEOF | Some EUnexpectedEOF => ([], Some EUnexpectedEOF, truncated_frame x2)
-             | _ => ([], e, x2)
-             end
+        else let '(e, x2) := trailer_cb (set_trailer x1 (x_trailers x1)) l in ([], e, x2)
       | _ => ([], Some EUnexpectedFrame, set_closed x1 (close_conn (x_closed x1) h3ErrCodeFrameUnexpected))
       end
     end
